@@ -513,6 +513,7 @@ def classify_diagnostics(msgs, devices, probes):
 
 # ------------------------------------------------------------------ known findings
 
+# (documentation of the entries this check relies on; KNOWN_FINDINGS.jsonl is never written at run time)
 DEFAULT_FINDINGS = [
     {"id": "D5", "property": "C17", "status": "open", "class": "manifest front end ignores default_*_access",
      "witness": "JSON config {default_register_access: RO}, register without own access: .write() compiles (accessor is RW)",
@@ -522,22 +523,6 @@ DEFAULT_FINDINGS = [
     {"id": "D7", "property": "C17", "status": "open", "class": "field set with a WriteOnly field emits a Debug impl calling the missing getter",
      "note": "C17's probe crate contains WO fields; the D7 diagnostic lands outside the probe functions and is recognised, not counted"},
 ]
-
-
-def ensure_known_findings():
-    """Create / complete KNOWN_FINDINGS.jsonl with the D5 and D7 entries this check relies on (append-only)."""
-    have = set()
-    if os.path.exists(KNOWN_PATH):
-        for line in open(KNOWN_PATH):
-            try:
-                d = json.loads(line)
-                have.add((d.get("id"), d.get("property")))
-            except json.JSONDecodeError:
-                pass
-    missing = [f for f in DEFAULT_FINDINGS if (f["id"], f["property"]) not in have]
-    if missing:
-        with open(KNOWN_PATH, "a") as f:
-            f.write("".join(json.dumps(x, sort_keys=True) + "\n" for x in missing))
 
 
 def is_d7_diag(rec, dev_by_mod, probes):
@@ -607,7 +592,6 @@ def severity_key(p):
 
 
 def run(ctx):
-    ensure_known_findings()
     info = vlib.coq_gate(ctx)
     known = {f["id"]: f for f in vlib.load_known_findings("C17")}
     cov = {"evaluations": 0, "distinct_nontrivial": 0, "rule": RULE, "samples": [], "exhaustive": True}
